@@ -43,6 +43,54 @@ theorem route_sound (ord : List S → List S) (T : List (S × List S)) (d : Dev)
   obtain ⟨hmem, tys, hT, ty, hty, hf⟩ := action_some ord T hact
   exact ⟨hmem, a, ha, tys, hT, ty, hty, findService_mem hf⟩
 
+/-- **"Not available", exactly, without any assumption** on tables, tree or action sets (every
+    service has its own, arbitrary action set): the facade answers "not available" iff none of the
+    services `find_service` yields for the types of the operation's aliases defines the action. -/
+theorem route_none_iff (ord : List S → List S) (hord : ∀ l x, x ∈ ord l ↔ x ∈ l)
+    (T : List (S × List S)) (d : Dev) (r : OpRow) :
+    route ord T d r = none ↔
+      ∀ a ∈ r.aliases, ∀ tys, get? T a = some tys → ∀ ty ∈ tys, ∀ s, findService d ty = some s →
+        r.action ∉ s.acts := by
+  unfold route anyAction
+  rw [List.findSome?_eq_none_iff]
+  constructor
+  · intro h a ha tys hT ty hty s hs hmem
+    have := h a ha
+    simp only [action, hT] at this
+    have := List.findSome?_eq_none_iff.mp this ty ((hord tys ty).mpr hty)
+    simp [hs, hmem] at this
+  · intro h a ha
+    simp only [action]
+    cases hT : get? T a with
+    | none => rfl
+    | some tys =>
+      simp only
+      rw [List.findSome?_eq_none_iff]
+      intro ty hty
+      cases hs : findService d ty with
+      | none => rfl
+      | some s =>
+        have := h a ha tys hT ty ((hord tys ty).mp hty) s hs
+        simp [this]
+
+/-- the same in terms of everything the gateway offers, when every service type is offered once
+    (`find_service` yields one service per type, so a second service of a type is out of reach):
+    "not available" iff no offered service of the alias list's types defines the action. -/
+theorem route_none_iff_offered (ord : List S → List S) (hord : ∀ l x, x ∈ ord l ↔ x ∈ l)
+    (T : List (S × List S)) (d : Dev) (r : OpRow) (hd : (keys (allServices d)).Nodup) :
+    route ord T d r = none ↔
+      ∀ a ∈ r.aliases, ∀ tys, get? T a = some tys → ∀ p ∈ allServices d, p.1 ∈ tys →
+        r.action ∉ p.2.acts := by
+  rw [route_none_iff ord hord]
+  constructor
+  · intro h a ha tys hT p hp hty
+    have hf : findService d p.1 = some p.2 := by
+      rw [findService_eq, ← get?_eq_find?]
+      exact get?_of_mem_nodup hd hp
+    exact h a ha tys hT p.1 hty p.2 hf
+  · intro h a ha tys hT ty hty s hs
+    exact h a ha tys hT (ty, s) (findService_mem hs) hty
+
 /-- **Routing, generic in the tables.**  Let the alias table cover the action's family
     (`hcov`: every service type of the family is registered under an alias the operation uses).
     Then on every gateway in which the action is defined only by members of its family
